@@ -14,11 +14,13 @@ import (
 	"os"
 	"strconv"
 	"strings"
+	"sync"
 	"time"
 
 	jconfig "go.minekube.com/gate/pkg/edition/java/config"
 	"go.minekube.com/gate/pkg/edition/java/proto/version"
 	"go.minekube.com/gate/pkg/edition/java/proxy"
+	"go.minekube.com/gate/pkg/util/uuid"
 
 	"verifharness/hx"
 )
@@ -289,6 +291,88 @@ func parseResponse(data []byte) string {
 	return fmt.Sprintf("resp:proto=%d,online=%d,max=%d", *v.Version.Protocol, *v.Players.Online, *v.Players.Max)
 }
 
+// ---------- registry histories (the history behind players.online) ----------
+
+type stubConn struct {
+	once   sync.Once
+	closed chan struct{}
+}
+
+func newStub() *stubConn { return &stubConn{closed: make(chan struct{})} }
+func (s *stubConn) Read(b []byte) (int, error) {
+	<-s.closed
+	return 0, net.ErrClosed
+}
+func (s *stubConn) Write(b []byte) (int, error) { return len(b), nil }
+func (s *stubConn) Close() error {
+	s.once.Do(func() { close(s.closed) })
+	return nil
+}
+func (s *stubConn) LocalAddr() net.Addr { return &net.TCPAddr{IP: net.IPv4(127, 0, 0, 1), Port: 25565} }
+func (s *stubConn) RemoteAddr() net.Addr {
+	return &net.TCPAddr{IP: net.IPv4(127, 0, 0, 1), Port: 40000}
+}
+func (s *stubConn) SetDeadline(t time.Time) error      { return nil }
+func (s *stubConn) SetReadDeadline(t time.Time) error  { return nil }
+func (s *stubConn) SetWriteDeadline(t time.Time) error { return nil }
+
+func uid(n int) uuid.UUID {
+	var u uuid.UUID
+	u[12], u[13], u[14], u[15] = byte(n>>24), byte(n>>16), byte(n>>8), byte(n)
+	return u
+}
+
+type hdecl struct {
+	name string
+	id   int
+}
+
+// history runs register/unregister steps against the REAL registry of a fresh proxy (through the C11 verif
+// hooks: real connectedPlayer, real registerConnection, real teardown on Disconnect) and after every step
+// performs one status exchange through HandleConn and reads len(Players()).
+func history(onlineMode, kick bool, decls []hdecl, ops []string) string {
+	cfg := jconfig.DefaultConfig
+	cfg.OnlineMode = onlineMode
+	cfg.OnlineModeKickExistingPlayers = kick
+	cfg.Quota.Connections.Enabled = false
+	cfg.Quota.Logins.Enabled = false
+	px, err := proxy.New(proxy.Options{Config: &cfg})
+	if err != nil {
+		return "proxy-new-error"
+	}
+	e := &env{p: px}
+	pls := make([]*proxy.C11Player, len(decls))
+	for i, d := range decls {
+		pls[i] = proxy.C11NewPlayer(px, newStub(), d.name, uid(d.id), onlineMode)
+	}
+	var on, pl []string
+	for _, op := range ops {
+		i, _ := strconv.Atoi(op[1:])
+		switch op[0] {
+		case 'r':
+			proxy.C11Register(px, pls[i])
+		case 'u':
+			pls[i].Player().Disconnect(nil)
+		}
+		out := e.session(776, 1, []string{"R", "Pfeedfacecafebeef"}, false)
+		k := "x"
+		if j := strings.Index(out, "online="); j >= 0 {
+			k = out[j+len("online="):]
+			k = k[:strings.IndexAny(k, ", ")]
+		}
+		on = append(on, k)
+		pl = append(pl, strconv.Itoa(len(px.Players())))
+	}
+	return "on=" + strings.Join(on, ",") + " pl=" + strings.Join(pl, ",")
+}
+
+func b01(b bool) string {
+	if b {
+		return "1"
+	}
+	return "0"
+}
+
 func hex8(r *hx.Rng) string { return hx.Hex(r.Bytes(8)) }
 
 func genOp(r *hx.Rng) string {
@@ -349,6 +433,55 @@ func main() {
 			hangs++
 		}
 		run.Case(class, line, out)
+	}
+
+	// ---- registry histories: players.online after register/unregister steps, in every registry mode
+	doHist := func(class string, onlineMode, kick bool, decls []hdecl, ops []string) {
+		var ds []string
+		for _, d := range decls {
+			ds = append(ds, fmt.Sprintf("%s:%d", d.name, d.id))
+		}
+		line := fmt.Sprintf("hist %s %s %s %s", b01(onlineMode), b01(kick), strings.Join(ds, ","), strings.Join(ops, ","))
+		out := hx.Guard(60*time.Second, func() string { return history(onlineMode, kick, decls, ops) })
+		run.Case(class, line, out)
+	}
+	for _, m := range [][2]bool{{true, true}, {true, false}, {false, true}, {false, false}} {
+		// different UUIDs, names equal ignoring case; same UUID twice; a rejected duplicate leaving
+		doHist("hist-fixed", m[0], m[1], []hdecl{{"Alice", 1}, {"ALICE", 2}}, []string{"r0", "r1", "u1", "u0"})
+		doHist("hist-fixed", m[0], m[1], []hdecl{{"Alice", 1}, {"alice", 2}}, []string{"r0", "r1", "u0", "u1"})
+		doHist("hist-fixed", m[0], m[1], []hdecl{{"Bob", 1}, {"Bob", 1}, {"Eve", 3}}, []string{"r0", "r2", "r1", "u1", "u0", "u2"})
+		doHist("hist-fixed", m[0], m[1], []hdecl{{"Bob", 1}, {"Eve", 1}, {"bob", 2}}, []string{"r0", "r1", "r2", "u2", "u1", "u0"})
+	}
+	namePool := []string{"Bob", "bob", "BOB", "Eve", "eve", "Zed"}
+	for i := 0; i < run.Scale(120, 2500); i++ {
+		nc := 2 + r.Intn(4)
+		decls := make([]hdecl, nc)
+		for j := range decls {
+			decls[j] = hdecl{hx.Pick(r, namePool), 1 + r.Intn(3)}
+		}
+		// every connection registers at most once and is torn down at most once (after its registration, or
+		// without one: the teardown of a login that never got registered)
+		var ops []string
+		regd, torn := make([]bool, nc), make([]bool, nc)
+		for k := 0; k < 2+r.Intn(2*nc); k++ {
+			j := r.Intn(nc)
+			switch {
+			case !regd[j] && !torn[j] && r.Chance(4, 5):
+				regd[j] = true
+				ops = append(ops, fmt.Sprintf("r%d", j))
+			case !torn[j]:
+				torn[j] = true
+				ops = append(ops, fmt.Sprintf("u%d", j))
+			}
+		}
+		if len(ops) == 0 {
+			continue
+		}
+		mode := r.Intn(4)
+		if r.Chance(1, 2) {
+			mode = 0 // kick mode is where the two indices can differ in size
+		}
+		doHist("hist-random", mode < 2, mode%2 == 0, decls, ops)
 	}
 
 	// ---- fixed regression cases first
